@@ -150,7 +150,7 @@ def run(tier: str) -> int:
               "relabelling of p_id/hh_id (sparse, up to 20x) applied consistently to the pointer columns; values 2^-40, "
               "dtypes exactly, id columns as partitions; one scale case per date (B with several hundred persons and more "
               "than 100 self-supporting children, ids below and above A's). distinct = (A, B, arrangement).")
-    common.build_and_audit(r, ["C02", "C02Sim", "C02E2E", "C12Cor"], leanchecker=not quick)
+    common.build_and_audit(r, ["C02", "C02Sim", "C02E2E", "C02Ids", "C12Cor"], leanchecker=not quick)
     rnd = common.rng("C02")
     for date in (popgen.DATES_QUICK if quick else popgen.DATES_2015):
         if quick or date in popgen.DATES_QUICK:
